@@ -1239,8 +1239,61 @@ func sameExpr(a, b ssa.Value, d int) bool {
 	case *ssa.BinOp:
 		y, ok := b.(*ssa.BinOp)
 		return ok && x.Op == y.Op && sameExpr(x.X, y.X, d+1) && sameExpr(x.Y, y.Y, d+1)
+	case *ssa.Call:
+		// two calls of the same side-effect-free getter on the same arguments
+		y, ok := b.(*ssa.Call)
+		if !ok || len(x.Call.Args) != len(y.Call.Args) {
+			return false
+		}
+		if x.Call.IsInvoke() != y.Call.IsInvoke() {
+			return false
+		}
+		if x.Call.IsInvoke() {
+			if x.Call.Method != y.Call.Method || !sameExpr(x.Call.Value, y.Call.Value, d+1) {
+				return false
+			}
+		} else {
+			sx, sy := x.Call.StaticCallee(), y.Call.StaticCallee()
+			if sx == nil || sx != sy {
+				if bx, ok := x.Call.Value.(*ssa.Builtin); ok {
+					by, ok2 := y.Call.Value.(*ssa.Builtin)
+					if !ok2 || bx.Name() != by.Name() || bx.Name() != "len" {
+						return false
+					}
+				} else {
+					return false
+				}
+			} else if !isPureGetter(sx) {
+				return false
+			}
+		}
+		for i := range x.Call.Args {
+			if !sameExpr(x.Call.Args[i], y.Call.Args[i], d+1) {
+				return false
+			}
+		}
+		return true
+	case *ssa.Alloc:
+		return false
 	}
 	return false
+}
+
+// isPureGetter: the function has no stores, no calls and returns a constant or a field load.
+func isPureGetter(fn *ssa.Function) bool {
+	if fn.Blocks == nil {
+		return false
+	}
+	pure := true
+	forEachInstr(fn, func(in ssa.Instruction) {
+		switch in.(type) {
+		case *ssa.Store, *ssa.MapUpdate, *ssa.Send, *ssa.Go, *ssa.Defer:
+			pure = false
+		case ssa.CallInstruction:
+			pure = false
+		}
+	})
+	return pure
 }
 
 // phiLeaf is a non-φ value flowing into a φ web, with the block the edge leaves from.
